@@ -190,3 +190,24 @@ func attrNames(r *rng.R, n int) []string {
 	}
 	return out
 }
+
+// genVLen generates the create and write operations of a variable-length
+// dataset; big adds element lengths around and above one global heap collection.
+func genVLen(r *rng.R, path string, maxCount int, big bool) (trace.Op, trace.Op) {
+	dt := rng.Pick(r, []string{"VLenString", "VLenString", "VLenInt32", "VLenInt64", "VLenFloat64", "VLenUint32"})
+	cnt := r.Range(1, maxCount)
+	op := trace.Op{Op: "create_dataset", Path: path, DType: dt, Dims: []uint64{uint64(cnt)}}
+	return op, trace.Op{Op: "write", Path: path, Data: genVLenData(r, big)}
+}
+
+func genVLenData(r *rng.R, big bool) *trace.Data {
+	pool := []int{0, 1, 7, 8, 9, 3, 16, 100}
+	if big {
+		pool = append(pool, 2000, 2000, 4064, 4081, 5000)
+	}
+	var lens []int
+	for k := 0; k < r.Range(1, 6); k++ {
+		lens = append(lens, rng.Pick(r, pool))
+	}
+	return &trace.Data{Gen: rng.Pick(r, []string{"rand", "ramp", "nul"}), Seed: r.Uint64() % 1000, Lens: lens}
+}
